@@ -37,6 +37,8 @@ type RunSpec struct {
 	SplitDepth int              `json:"split_depth,omitempty"`
 	SampleEnds int              `json:"sample_ends,omitempty"`
 	LogQueries string           `json:"log_queries,omitempty"`
+	AbstractConv bool           `json:"abstract_conv,omitempty"`
+	ExactFloat bool             `json:"exact_float,omitempty"`
 }
 
 type ConcreteOutcome struct {
@@ -208,6 +210,8 @@ func Run(spec RunSpec) *Result {
 		Redirects:     spec.Redirects,
 		Prefix:        spec.Prefix,
 		Progress:      spec.Progress,
+		AbstractConv:  spec.AbstractConv,
+		ExactFloat:    spec.ExactFloat,
 		SplitN:        spec.SplitN,
 		SplitI:        spec.SplitI,
 		SplitDepth:    spec.SplitDepth,
@@ -218,6 +222,7 @@ func Run(spec RunSpec) *Result {
 	}
 	t1 := time.Now()
 	in := New(prog, sv, cfg)
+	in.HarnessPkg = p
 	if len(spec.Concrete) > 0 {
 		for _, vec := range spec.Concrete {
 			res.Concrete = append(res.Concrete, in.RunConcrete(fn, vec))
